@@ -3,6 +3,7 @@ CONSTANTS
   K = 3
   Kinds = {"view", "op"}
   Emit = TRUE
+  RepLevel = 1
   Bug = "none"
 INVARIANTS InvView InvOp EmitInv
 CHECK_DEADLOCK FALSE
